@@ -4,6 +4,7 @@ package main
 
 import (
 	"bytes"
+	"compress/gzip"
 	"context"
 	"crypto/sha256"
 	"fmt"
@@ -319,7 +320,7 @@ func startRig(e *vh.Env) *bridgeRig {
 		r.logs = append(r.logs, &buf)
 	}
 	start(os.Getenv("VERIF_BIN_BRIDGE_BACKEND"), "-frontend-port", fmt.Sprint(r.backendPort), "-backend-port", fmt.Sprint(srvPort))
-	start(os.Getenv("VERIF_BIN_BRIDGE_FRONTEND"), "-frontend-port", fmt.Sprint(r.frontendPort), "-backend", fmt.Sprintf("ws://127.0.0.1:%d", r.backendPort))
+	start(os.Getenv("VERIF_BIN_BRIDGE_FRONTEND"), "-frontend-port", fmt.Sprint(r.frontendPort), "-backend", fmt.Sprintf("ws://127.0.0.1:%d%s", r.backendPort, map[bool]string{true: "/", false: ""}[e.Suite == "bridge"])) // both spellings of the URL are in use
 	if !waitPort(r.backendPort) || !waitPort(r.frontendPort) {
 		panic("bridge binaries did not start: " + r.logs[0].String() + r.logs[1].String())
 	}
@@ -530,7 +531,12 @@ func suiteBridge(e *vh.Env) {
 						fmt.Fprintf(c, "HTTP/1.1 200 OK\r\nContent-Length: 64\r\nConnection: close\r\n\r\n%x", sha256.Sum256(body))
 						return
 					}
-					httpSeen <- fmt.Sprintf("%s %s host=%s x=%s body=%x", req.Method, req.RequestURI, req.Host, strings.Join(req.Header["X-Verif"], ","), body)
+					httpSeen <- fmt.Sprintf("%s %s host=%s x=%s ae=%s body=%x", req.Method, req.RequestURI, req.Host, strings.Join(req.Header["X-Verif"], ","), strings.Join(req.Header["Accept-Encoding"], ","), body)
+					if strings.HasPrefix(req.URL.Path, "/gz") {
+						// a port that compresses its answers
+						fmt.Fprintf(c, "HTTP/1.1 200 OK\r\nContent-Encoding: gzip\r\nContent-Length: %d\r\nConnection: close\r\n\r\n%s", len(gzHello), gzHello)
+						return
+					}
 					io.WriteString(c, "HTTP/1.1 200 OK\r\nContent-Length: 2\r\nConnection: close\r\n\r\nok")
 				}(c)
 			case <-stopHTTP:
@@ -541,22 +547,28 @@ func suiteBridge(e *vh.Env) {
 	for i := 0; i < e.N(6, 60); i++ {
 		rng := e.Rng.Sub(100000 + i)
 		method := rng.Pick([]string{"GET", "POST", "PUT", "DELETE"})
-		path := "/" + rng.Pick([]string{"", "a/b", "tcp-over-websocket-bridge/35218cb7-1201-4940-89e8-48d8f03fed96", "x%2Fy?q=1&q=2"})
+		path := "/" + rng.Pick([]string{"", "a/b", "tcp-over-websocket-bridge/35218cb7-1201-4940-89e8-48d8f03fed96", "x%2Fy?q=1&q=2", "gz/1"})
+		if i == 1 {
+			path = "/gz/0"
+		}
 		var body []byte
 		if method != "GET" {
 			body = rng.Bytes(rng.Intn(3000))
 		}
 		req, _ := http.NewRequest(method, fmt.Sprintf("http://127.0.0.1:%d%s", rig.backendPort, path), bytes.NewReader(body))
 		req.Header["X-Verif"] = []string{"one", "two"}
-		tr := &http.Transport{DisableKeepAlives: true}
+		tr := &http.Transport{DisableKeepAlives: true, DisableCompression: true} // the client asks for no encoding
 		resp, err := tr.RoundTrip(req)
 		if err != nil {
 			e.Fail("C15:passthrough-error", err.Error(), 100000+i, nil, nil, nil)
 			continue
 		}
-		io.Copy(io.Discard, resp.Body)
+		rb, _ := io.ReadAll(resp.Body)
 		resp.Body.Close()
-		want := fmt.Sprintf("%s %s host=127.0.0.1:%d x=one,two body=%x", method, path, rig.backendPort, body)
+		if strings.HasPrefix(path, "/gz") && (string(rb) != gzHello || resp.Header.Get("Content-Encoding") != "gzip") {
+			e.Fail("C15:passthrough-altered", fmt.Sprintf("%s %s: the backend port answered %d gzip-encoded bytes with Content-Encoding: gzip; the client received %d bytes with Content-Encoding %q", method, path, len(gzHello), len(rb), resp.Header.Get("Content-Encoding")), 100000+i, nil, len(rb), len(gzHello))
+		}
+		want := fmt.Sprintf("%s %s host=127.0.0.1:%d x=one,two ae= body=%x", method, path, rig.backendPort, body)
 		select {
 		case got := <-httpSeen:
 			if got != want {
@@ -620,6 +632,15 @@ func suiteBridge(e *vh.Env) {
 	}
 	close(stopHTTP)
 }
+
+// gzHello: "hello hello hello hello hello\n" gzip-compressed
+var gzHello = func() string {
+	var b bytes.Buffer
+	w := gzip.NewWriter(&b)
+	w.Write([]byte("hello hello hello hello hello\n"))
+	w.Close()
+	return b.String()
+}()
 
 func closeWrite(c net.Conn) {
 	if tc, ok := c.(*net.TCPConn); ok {
